@@ -23,36 +23,42 @@ THEOREMS = ["C08_mean_obliquity_polynomial", "C08_mean_obliquity_vs_IAU", "C08_t
             "C08_rectangular_equinox_closed_form", "C08_equinox_angles", "C08_rectangular_equinox_norm",
             "C08_equinox_T_refuted", "C08_true_longitude_coarse_closed_form", "C08_coarse_constants",
             "C08_apparent_longitude_coarse_closed_form",
-            "C08_moon_node_closed_form", "C08_moon_node_constants", "C08_node_agreement"]
+            "C08_moon_node_closed_form", "C08_moon_node_constants", "C08_node_agreement",
+            "C08_true_obliquity_structure", "C08_sun_errors_propagate", "C08_equinox_frame_refuted",
+            "C08_node_nutation_constants"]
 PROOF_TIMEOUT = {"quick": 2200, "thorough": 3000}
 EXHAUSTIVE = False
 MANIFEST = {
     "category": "proof",
-    "text": "T4 in the ideal (real-number) instance of the regenerated model: mean_obliquity is Laskar's explicit degree-10 polynomial and stays within 3 arcsec of the IAU cubic for |T| <= 20 (interval); true obliquity = mean + nutation in obliquity; Sun geometric/apparent position = the Earth callee's result reflected (lon+180 reduced to [0,360), -lat, same r) whatever the VSOP87 callee returns; of-date rectangular coordinates have norm r (1 + sin^2 lat)^(1/2), J2000 ones norm r to 2e-12 (constant matrix orthogonal to 2e-12). Closed forms of rectangular_coordinates_j2000/_b1950/_equinox and of true/apparent_longitude_coarse on the generated code (every literal constant pinned); the equinox rotation is exactly orthogonal; the known findings are theorems: ~ C08_b1950_norm_full (x overwritten before use) and ~ C08_equinox_T_full (T = epoch - equinox instead of 0). Frame agreement with the library's own precession (2 arcsec / 1e-5 AU, 1000-3000), nutation vs the 18.6-year main-term model and coarse-vs-VSOP87 are searched densely on the implementation (3 genuine frame defects recorded as known findings, with a defect-free recomputation checked against the property and the code checked against defect-free / known-defect recomputations). Bit-exact correspondence every run.",
+    "text": "Ideal (real-number) instance of the regenerated model, Epoch arguments, callees abstracted (conditional on their documented result shapes, which the bit-exact correspondence validates every run). PROPERTY CLAUSES PROVED: mean obliquity = Laskar polynomial and within 3 arcsec of the IAU cubic for |T| <= 20; true obliquity = Angle sum of mean obliquity and whatever nutation_obliquity returns; Sun geometric/apparent position = Earth callee's result reflected (errors propagate); J2000 rectangular norm = r to 2e-12; arbitrary-equinox rotation exactly orthogonal; of-date rectangular norm^2 = r^2 (1 + sin^2 lat) (weaker than norm = r: needs |lat| small, unproved). REFUTED IN COQ (known findings): B1950 norm (~ C08_b1950_norm_full), equinox rotation vs Meeus T = 0 beyond 2 arcsec (~ C08_equinox_frame_full). CLOSED FORMS THAT ONLY PIN THE CODE (no property clause follows): rectangular_coordinates_j2000/_b1950/_equinox, true/apparent_longitude_coarse, Moon.longitude_mean_ascending_node; C08_node_agreement is spec-level (nutation side not bridged). UNPROVED, SEARCHED ONLY - the headline numeric clauses: frame agreement with the library's precession (2 arcsec / 1e-5 AU; 3 genuine defects recorded as bounded known findings), nutation within 3.5 / 1.5 arcsec of the main-term model, coarse vs VSOP87 0.02 degree, date-argument forms.",
     "technique": "symbolic evaluation (pyrun / call-by-value pyrunv) of the generated model over the reals with opaque callees + interval/lra/ring; generated model + bit-exact differential correspondence; dense search for the numeric clauses",
     "design_ref": "8/C08",
 }
-EXPLANATION = ("The Coq model of Sun/Earth/Coordinates/Moon regenerated from /repo is read over the real numbers "
-               "(same text as the binary64 instance that is compared bit for bit with the implementation). Proved there: "
-               "mean_obliquity = 23d26'21.448\" + Laskar's polynomial, within 3 arcsec of the IAU cubic for |T| <= 20 centuries (interval); "
-               "true_obliquity = mean + nutation_obliquity; Sun.geometric/apparent_geocentric_position = the Earth callee's result "
-               "reflected, whatever that callee returns; of-date rectangular coordinates satisfy x^2+y^2+z^2 = r^2 (1 + sin^2 lat). "
-               "Frame agreement with the library's own precession, nutation vs the main-term model and coarse-vs-VSOP87 are numeric "
-               "statements about table sums: searched densely on the implementation, not proved.")
+EXPLANATION = ("The Coq model of Sun/Earth/Coordinates/Moon regenerated from /repo is read over the real numbers (same text as the "
+               "binary64 instance that is compared bit for bit with the implementation). Property clauses proved there (Epoch arguments, callees "
+               "abstracted by their documented result shape): mean obliquity vs IAU cubic (3 arcsec, |T| <= 20), true = mean + nutation, Sun = Earth "
+               "reflected, J2000 and arbitrary-equinox rectangular norms. Refuted there: B1950 norm, equinox rotation vs Meeus' T = 0 (known findings). "
+               "Closed forms of the frame functions, the coarse formulas and the Moon node pin every constant of the code but prove no clause. "
+               "The headline numeric clauses (frame agreement with the library's precession, nutation vs main term, coarse vs VSOP87) are "
+               "searched densely on the implementation, not proved.")
 CLAUSES = {
-    "Sun geometric position = Earth position reflected (lon+180 reduced to [0,360), -lat, same r)": "proved [ideal, for every result of the Earth callee, tofk5 on/off]",
-    "Sun apparent position = Earth apparent position reflected": "proved [ideal, for every result of the Earth callee, nutation on/off]",
-    "rectangular coordinates of date have norm r": "proved [ideal: norm^2 = r^2 (1 + sin^2 lat) exactly, i.e. r to 2e-10 for |lat| <= 0.001 deg; the code omits Meeus' factor cos(lat)]",
-    "J2000 rectangular coordinates have norm r": "proved [ideal: spherical vector of norm r times a constant matrix with |M^T M - I| <= 2e-12, for every result of the J2000 callee]",
-    "arbitrary-equinox rectangular coordinates have norm r": "proved [ideal: closed form of the generated function = rotation by zeta, z, theta of the J2000 vector, and that rotation is exactly orthogonal (C08_rectangular_equinox_closed_form, C08_rectangular_equinox_norm)]",
-    "B1950 rectangular coordinates have norm r": "refuted: known finding norm-b1950 - closed form of the generated body (y uses the already rotated x, z the rotated x and y: C08_rectangular_b1950_closed_form) and ~ C08_b1950_norm_full proved with the witness lon = 90, lat = 0, r = 1 (norm off by > 1e-7); implementation witness Sun.rectangular_coordinates_b1950(Epoch(2089055.144)): norm 1.00744, r = 1.01526",
-    "J2000/B1950/arbitrary equinox positions = of-date position carried by the library's precession, 2 arcsec / 1e-5 AU, 1000-3000": "refuted: witnesses under known findings frame-j2000, frame-earth-j2000 (VSOP87_L_J2000 frequency typo 12556.15 for 12566.15, up to 144 arcsec), frame-b1950 (variable overwrite, up to 6900 arcsec), frame-equinox (T = epoch-equinox instead of 0, up to 208 arcsec); the same clause holds to 0.7 arcsec for the defect-free recomputation from the library's tables (searched); in Coq: closed forms of all three generated functions pin every constant (C08_rectangular_j2000/b1950/equinox_closed_form, C08_equinox_angles); refuted: known finding frame-equinox - the generated zeta, z, theta are evaluated with T = (epoch - equinox)/36525 instead of 0 (~ C08_equinox_T_full, 54 arcsec at t = 3, T = -13); refuted: known finding frame-b1950 (~ C08_b1950_norm_full)",
-    "mean obliquity within 3 arcsec of the IAU cubic for |T| <= 20": "proved [ideal, interval on the generated polynomial]",
-    "nutation in longitude within 3.5 arcsec of -17.20 sin(Omega), Omega = Moon.longitude_mean_ascending_node": "unproved (searched): worst 2.43 arcsec over -2000..4000; the 63-row table loop with a reduction after every Angle operation was not brought into closed form in the time available; proved [ideal]: Moon.longitude_mean_ascending_node = pos360(red360(node polynomial)) with every constant pinned, and the node polynomial inside the nutation functions agrees with it to 0.0024 degree for |T| <= 20 (C08_moon_node_closed_form, C08_node_agreement)",
-    "nutation in obliquity within 1.5 arcsec of 9.20 cos(Omega)": "unproved (searched): worst 0.83 arcsec over -2000..4000",
-    "true obliquity = mean obliquity + nutation in obliquity": "proved [ideal, structural, for every result of the two callees]",
-    "coarse solar formulas within 0.02 degree of VSOP87 in 1800-2200": "unproved (searched): worst 0.0095 degree; global numeric statement about a 1000-term series. Proved [ideal]: closed forms of true_longitude_coarse (polynomials L0, M, e, equation of the centre, radius vector, every Angle reduction explicit) and apparent_longitude_coarse, pinning every constant (C08_true_longitude_coarse_closed_form, C08_coarse_constants, C08_apparent_longitude_coarse_closed_form)",
-    "date arguments in every accepted form": "unproved (searched): all forms go through Epoch.check_input_date (C02); every documented form of a calendar day gives the same Angle",
+    # wording: "property clause proved" = a clause of the property text is a theorem;
+    #          "closed form (pins the code)" = the generated function equals an explicit formula: a mutation of any
+    #          constant/sign breaks the proof, but no clause of the property follows from it.
+    "Sun geometric position = Earth position reflected (lon+180 reduced to [0,360), -lat, same r)": "property clause proved [ideal], CONDITIONAL on the Earth callee returning its documented shape (Angle, Angle, float) with stored degrees in (-360, 360); that shape is validated by the bit-exact correspondence every run, not by a Coq lemma (the callee is the VSOP87 evaluator, characterised in C07); tofk5 on/off; the other case - the callee errs - is proved to propagate the error (C08_sun_errors_propagate)",
+    "Sun apparent position = Earth apparent position reflected": "property clause proved [ideal], same condition on the Earth callee, nutation on/off; the code contains no step beyond the reflection",
+    "rectangular coordinates of date have norm r": "weaker than the clause: proved [ideal] norm^2 = r^2 (1 + sin^2 lat) exactly (the code omits Meeus' factor cos lat), conditional on the result shapes of Sun.geometric_geocentric_position / mean_obliquity (both satisfiable by C08's own theorems given the Earth callee's shape); norm = r to 2e-10 follows only for |lat| <= 0.001 deg (C08_latitude_term_small is pure mathematics); that the Sun's latitude stays that small is NOT proved (searched: 1.2 arcsec, norm off by at most 1.6e-11 AU)",
+    "J2000 rectangular coordinates have norm r": "property clause proved [ideal] to 2e-12 relative (constant matrix with |M^T M - I| <= 2e-12), conditional on the documented result shape of the J2000 Earth callee",
+    "arbitrary-equinox rectangular coordinates have norm r": "property clause proved [ideal]: closed form (pins the code) of the generated function = rotation of the J2000 vector (equinox within 3 centuries, JDE 2.0e6..2.9e6, J2000 callee abstracted), and that rotation is exactly orthogonal for all angles (C08_rectangular_equinox_norm)",
+    "B1950 rectangular coordinates have norm r": "refuted: known finding norm-b1950 - closed form (pins the code) of the generated body (y uses the already rotated x, z the rotated x and y) and ~ C08_b1950_norm_full proved with the witness lon = 90, lat = 0, r = 1 (norm off by > 1e-7); implementation witness Sun.rectangular_coordinates_b1950(Epoch(2089055.144)): norm 1.00744, r = 1.01526",
+    "J2000/B1950/arbitrary equinox positions = of-date position carried by the library's precession, 2 arcsec / 1e-5 AU, 1000-3000": "UNPROVED as a clause (searched); refuted on the implementation under known findings frame-j2000, frame-earth-j2000 (VSOP87_L_J2000 frequency typo 12556.15 for 12566.15, up to 144 arcsec), frame-b1950 (variable overwrite, up to 6925 arcsec), frame-equinox (T = epoch-equinox instead of 0, up to 234 arcsec); the same clause holds to 0.8 arcsec for the defect-free recomputation from the library's tables (searched). In Coq only: closed forms (pin the code) of the three generated functions (C08_rectangular_j2000/b1950/equinox_closed_form; C08_equinox_angles is a constant read-out), and two refutations on those closed forms: ~ C08_b1950_norm_full, and ~ C08_equinox_frame_full = the generated equinox rotation is NOT within 2 arcsec of the rotation Meeus prescribes (T = 0) at epoch 1000 / equinox 2300 (C08_equinox_T_refuted is the weaker polynomial-identity form). The J2000 table typo has no Coq statement",
+    "mean obliquity within 3 arcsec of the IAU cubic for |T| <= 20": "property clause proved [ideal, for an Epoch argument]: the generated function is the explicit Laskar polynomial and interval bounds it against the independent IAU cubic",
+    "nutation in longitude within 3.5 arcsec of -17.20 sin(Omega), Omega = Moon.longitude_mean_ascending_node": "UNPROVED (searched): worst 2.43 arcsec over -2000..4000. Proved pieces: Moon.longitude_mean_ascending_node = pos360(red360(node polynomial)) is a closed form (pins the code); C08_node_agreement is [spec]: the Moon side is bridged by that closed form, the nutation-side polynomial (node_nutation) is a transcription of Coordinates.py:398 NOT tied to f_nutation_longitude by a proof in this property's files yet (it is the term polyO of the structure theorem being added in C08_nut_main.v)",
+    "nutation in obliquity within 1.5 arcsec of 9.20 cos(Omega)": "UNPROVED (searched): worst 0.83 arcsec over -2000..4000",
+    "true obliquity = mean obliquity + nutation in obliquity": "property clause proved [ideal, Epoch argument, |T| <= 20]: C08_true_obliquity_structure is unconditional (true_obliquity = Angle.__add__(mean obliquity, whatever nutation_obliquity returns), errors propagate); C08_true_obliquity_is_sum is the corollary for callee results of Angle shape",
+    "coarse solar formulas within 0.02 degree of VSOP87 in 1800-2200": "UNPROVED (searched): worst 0.0095 degree; global numeric statement about a 1000-term series. In Coq only closed forms (pin the code): true_longitude_coarse for |t| <= 10 centuries, apparent_longitude_coarse with its callee abstracted; C08_coarse_constants is a constant read-out; apparent_rightascension_declination_coarse has no theorem",
+    "date arguments in every accepted form": "UNPROVED (searched): all theorems are for an Epoch argument; the other forms go through Epoch.check_input_date (C02); every documented form of a calendar day gives the same Angle (searched)",
+    "known-finding keys": "frame-j2000 / frame-earth-j2000 <= 160 arcsec & 8e-4 AU, frame-equinox <= 290 arcsec & 1.5e-3 AU, frame-b1950 <= 8000 arcsec & 4e-2 AU, norm-b1950 <= 2e-2 AU, beyond: <key>-gross. The b1950 envelope is necessarily wide (2.2 degrees) while the overwrite stays; a further defect inside any envelope is caught by frame-*-unexpected (code must equal the defect-free or the known-defect recomputation to 2.5e-7 AU) and frame-*-vs-corrected (the defect-free recomputation must meet the 2 arcsec clause)",
 }
 
 
